@@ -601,6 +601,7 @@ def body(led):
         discharge(led, seen)
     led.extra['paths'] = total_paths
     check_static(led)
+    check_static_twice(led)
     dyn = dynamic_grid()
     led.bounded_item('run-time contracts on the real driver over %s (%s runs): %s violations' % (dyn.get('input'), dyn.get('runs'), dyn.get('n_violations')))
     if dyn.get('n_violations') or dyn.get('raised'):
@@ -651,6 +652,78 @@ def check_static(led):
                     ok2 = run.attrs['increments'] == [] or run.attrs['increments'] is incs
                     (led.ok(name + '/returns-the-lists-the-driver-fills', func) if (incs is run.attrs['increments'] and cs is run.attrs['cs']) else
                      led.fail(name + '/returns-the-lists-the-driver-fills', func, {}, signature='lists'))
+
+
+def check_static_twice(led):
+    """a second analysis on the same Analysis object starts from empty output lists of its own (the reported history is the one of the
+    current run; the lists returned by the earlier run are not extended)"""
+    func = 'compmech/analysis/analysis.py:Analysis.static'
+    for first, second in ((False, True), (True, True), (True, False), (False, False)):
+        it = Interp()
+        shims.install(it)
+        install_contracts(it)
+        entries = []
+
+        def driver(itp, a, kw):
+            run = a[0]
+            entries.append((run.attrs.get('increments'), run.attrs.get('cs'), list(run.attrs.get('increments') or []), list(run.attrs.get('cs') or [])))
+            run.attrs['increments'].append(real('t_reported_%d' % len(entries)))
+            run.attrs['cs'].append(Vec(('state', len(entries))))
+        it.contracts['compmech.analysis.newton_raphson._solver_NR'] = driver
+        s = settings_symbolic(it)
+
+        def run_it():
+            del entries[:]
+            run = make_run(it, dict(s))
+            r1 = it.call(it.getattr(run, 'static'), [], dict(NLgeom=first, silent=True))
+            r2 = it.call(it.getattr(run, 'static'), [], dict(NLgeom=second, silent=True))
+            return run, r1, r2, list(entries)
+        for path, out in it.explore(run_it):
+            name = '%s[NLgeom=%s after a run with NLgeom=%s]/second-run-reports-only-its-own-history' % (func, second, first)
+            if out[0] != 'return':
+                led.fail(name + '/no-exception', func, {'raises': out[1].tname if out[0] == 'raise' else out[0]}, signature='raise')
+                continue
+            run, r1, r2, ent = out[1]
+            probs = []
+            if second:
+                e = ent[-1]
+                if e[2] or e[3]:
+                    probs.append('the driver of the second run starts with %d load factors / %d states already in the output lists' % (len(e[2]), len(e[3])))
+            if r2[0] is r1[0] or r2[1] is r1[1]:
+                probs.append('the second run returns the list objects of the first run (the earlier result keeps growing)')
+            if not second and not (len(r2[0]) == 1 and len(r2[1]) == 1):
+                probs.append('the linear run reports %d load factors and %d states, expected one of each' % (len(r2[0]), len(r2[1])))
+            if second and not (len(r2[0]) == 1 and len(r2[1]) == 1):
+                probs.append('the second run reports %d load factors (the driver stub reports one)' % len(r2[0]))
+            if probs:
+                led.fail(name, func, {'differences': probs}, signature='static-twice:' + ';'.join(probs)[:80], replay=replay_static_twice())
+            else:
+                led.ok(name, func)
+
+
+def replay_static_twice():
+    if 'twice' in _RP:
+        return _RP['twice']
+    from ..pyreplay import run_real
+    script = '''
+import numpy as np
+from scipy.sparse import csr_matrix
+from compmech.analysis import Analysis
+K = csr_matrix(np.array([[2.]])); f = np.array([1.])
+an = Analysis(calc_fext=lambda inc=1., silent=True: inc*f, calc_k0=lambda silent=True: K,
+              calc_fint=lambda c, inc=1., silent=True: K.dot(c) + 0.1*c**3, calc_kT=lambda c, inc=1., silent=True: csr_matrix(np.array([[2. + 0.3*c[0]**2]])))
+i1, c1 = an.static(NLgeom=False, silent=True)
+n1 = len(i1)
+i2, c2 = an.static(NLgeom=True, silent=True)
+fresh = Analysis(calc_fext=an.calc_fext, calc_k0=an.calc_k0, calc_fint=an.calc_fint, calc_kT=an.calc_kT)
+i3, c3 = fresh.static(NLgeom=True, silent=True)
+out = {"first_run_list_length_then_and_now": [n1, len(i1)], "second_run": [float(x) for x in i2], "fresh_object": [float(x) for x in i3]}
+'''
+    r = run_real(script, {})
+    r['reproduced'] = bool(r.get('raised') or r.get('second_run') != r.get('fresh_object') or (r.get('first_run_list_length_then_and_now') or [0, 0])[0] != (r.get('first_run_list_length_then_and_now') or [0, 0])[1])
+    r['input'] = '1-dof cubic spring: static(NLgeom=False), then static(NLgeom=True) on the same Analysis object, against a fresh object'
+    _RP['twice'] = r
+    return r
 
 
 def main():
